@@ -295,6 +295,9 @@ class GridWeighted(Grid):
         else:
             raise TypeError("The input should be a list, tuple or a single int, float value")
 
+        # Weighted grid points must be re-generated with the new weights
+        self._cache['gridptsw'][:] = []
+
     def reset(self):
         """ Resets the grid. """
         super(GridWeighted, self).reset()
@@ -319,9 +322,10 @@ class GridWeighted(Grid):
         if not self._cache['gridptsw']:
             for idx, cols in enumerate(self._grid_points):
                 weighted_gp_row = []
-                for row in cols:
-                    temp = [r * self._weights[idx] for r in row]
-                    temp.append(self._weights[idx])
+                for jdx, row in enumerate(cols):
+                    widx = jdx + (idx * len(cols))
+                    temp = [r * self._weights[widx] for r in row]
+                    temp.append(self._weights[widx])
                     weighted_gp_row.append(temp)
                 self._cache['gridptsw'].append(weighted_gp_row)
 
